@@ -18,6 +18,12 @@ type PlainStruct struct {
 	B string
 }
 
+// SliceStruct is a struct panic value that cannot be compared with ==.
+type SliceStruct struct {
+	Msg  string
+	Path []string
+}
+
 var errBoom = errors.New("boom-err")
 
 // PanicNow panics with a value of the given kind. Its name is looked for in stack traces.
@@ -46,6 +52,13 @@ func PanicNow(kind string) {
 		// an error whose own Error method panics when it is called (nil pointer receiver)
 		var pe *fs.PathError
 		panic(pe)
+	case "slice":
+		// values that cannot be compared with == (comparing two of them panics at run time)
+		panic([]string{"boom", "slice"})
+	case "map":
+		panic(map[string]int{"boom": 1})
+	case "slicestruct":
+		panic(SliceStruct{Msg: "boom", Path: []string{"a", "b"}})
 	case "ctxcanceled":
 		// an error value that the worker code itself treats specially when it is *returned*
 		panic(context.Canceled)
